@@ -1800,6 +1800,57 @@ func ruleTOCConfigFlow(r *Run) {
 			fmt.Sprintf("%s takes a TOC configuration%s", shortName(fn), map[bool]string{true: "; every heading collection it performs uses a level derived from its arguments", false: " but " + bad + ": the table of contents then lists headings up to a level the caller did not ask for"}[bad == ""]))
 	}
 	r.Min("api_functions_taking_toc_config", n, 2)
+	// the requested level is a value of the call: a configuration POINTER kept in the document (or
+	// anywhere outside the call) stays under the caller's control, and a later update would list
+	// headings up to whatever the caller has written into it since
+	for _, fn := range p.ModFuncs() {
+		if fn.Pkg == nil || fn.Pkg.Pkg.Path() != pkgDoc {
+			continue
+		}
+		allInstrs(fn, func(in ssa.Instruction) {
+			var val, addr ssa.Value
+			switch x := in.(type) {
+			case *ssa.Store:
+				val, addr = x.Val, x.Addr
+			case *ssa.MapUpdate:
+				val, addr = x.Value, x.Map
+			default:
+				return
+			}
+			if !isCfg(val.Type()) {
+				return
+			}
+			if _, isPtr := val.Type().(*types.Pointer); !isPtr {
+				return
+			}
+			if al := allocBase(addr); al != nil && !al.Heap {
+				return
+			}
+			var par *ssa.Parameter
+			seen := map[ssa.Value]bool{}
+			var walk func(v ssa.Value)
+			walk = func(v ssa.Value) {
+				if seen[v] {
+					return
+				}
+				seen[v] = true
+				switch x := v.(type) {
+				case *ssa.Parameter:
+					par = x
+				case *ssa.Phi:
+					for _, e := range x.Edges {
+						walk(e)
+					}
+				}
+			}
+			walk(val)
+			if par == nil {
+				return
+			}
+			r.Check("toc-config-flow", shortName(fn)+":retains-config", in.Pos(), false,
+				fmt.Sprintf("%s stores its caller's *TOCConfig (parameter %s) in memory that outlives the call (%s) instead of a copy: the level a later update uses can be changed from outside the document", shortName(fn), par.Name(), pathString(addr)))
+		})
+	}
 }
 
 // ---------------------------------------------------------------------------
